@@ -123,16 +123,16 @@ Universe ==
                       {Db(<<"w", "i", "k", "t", "e">>, DB),
                        Db(<<"w", "i", "k", "t", "[", "e", "n", "]", ".", "d", "b", "-", "o", "l", "d">>, <<>>)},
                       "a character set [..] in the file name; beside it a name the set stands for and a name that extends it"),
-   q_over   |-> Shape(<<>>, <<"-", "m", "y", " ", "p", "a", "*", "e", "s", ".", "v", "2">>, DB, FALSE,
+   q_over   |-> Shape(<<>>, <<"-", "m", "y", " ", "p", "a", "*", "e", "s", ".", "v", "2">>, DB, TRUE,
                       {Db(<<"-", "m", "y", " ", "p", "a", "g", "e", "s", ".", "v", "2">>, DB),
                        Db(<<"-", "m", "y", " ", "p", "a", "*", "e", "s">>, DB),
                        Db(<<"-", "m", "y", " ", "p", "a", "*", "e", "s">>, <<".", "v", "2">>)},
-                      "a leading -, a blank, a * and a second dot in the file name"),
-   q_dirrel |-> Shape(<<"d", "[", "1", "]", " ", "x", "*">>, <<"w", "ö", "r", "t", "e", "r">>, <<>>, TRUE,
+                      "a relative path (bare file name); a leading -, a blank, a * and a second dot in the file name"),
+   q_dir    |-> Shape(<<"d", "[", "1", "]", " ", "x", "*">>, <<"w", "ö", "r", "t", "e", "r">>, <<>>, FALSE,
                       {Db(<<"w", "ö", "r", "t", "e", "r">>, DB), Db(<<"w", "ö", "r", "t", "e", "r", "-", "o", "l", "d">>, <<>>)},
-                      "a relative path below a directory with [..], blank and *; no suffix; a letter outside ASCII")]
+                      "below a directory with [..], blank and *; no suffix; a letter outside ASCII")]
 
-IdsQuick == {"q_under", "q_over", "q_dirrel"}
+IdsQuick == {"q_under", "q_over", "q_dir"}
 IdsAll == {"plain", "class", "negclass", "star", "dash", "twodots", "nosuffix", "unicode", "dirclass", "relative"}
 PDevNone == {}
 PDevRestoreGlob == {"RestoreByGlob"}
